@@ -475,6 +475,72 @@ fn overwrite_histories(ctx: &Ctx) {
     }
 }
 
+/// Histories "a save that fails, then a save that succeeds" on one thread, per entry point: the second file holds
+/// exactly the second export (nothing of the failed call may leak into it), also when the two exports differ in width.
+fn after_error_histories(ctx: &Ctx) {
+    let dir = scratch();
+    let bad = format!("{dir}/no/such/dir/out.bin");
+    for (first, second) in [((3usize, 2usize, 2usize), (2usize, 3usize, 2usize)), ((2, 2, 3), (2, 3, 2)), ((1, 1, 2), (0, 3, 2))] {
+        let mkarr = |s: (usize, usize, usize), off: f64| Array3::<f64>::from_shape_fn(s, |(i, j, k)| coded(i, j, k) + off);
+        let (a1, a2) = (mkarr(first, 0.0), mkarr(second, 0.5));
+        let v2 = |i: usize, j: usize, k: usize| coded(i, j, k) + 0.5;
+        let v2f = |i: usize, j: usize, k: usize| ((coded(i, j, k) + 0.5) as f32) as f64;
+        let mkt = |s: (usize, usize, usize), off: f64| {
+            let flat: Vec<f32> = (0..s.0 * s.1 * s.2).map(|idx| (coded(idx / (s.1 * s.2).max(1), (idx / s.2.max(1)) % s.1.max(1), idx % s.2.max(1)) + off) as f32).collect();
+            Tensor::<NdArray<f32>, 3>::from_data(TensorData::new(flat, [s.0, s.1, s.2]), &Default::default())
+        };
+        let case = json!({"after_error": {"failed_export": [first.0, first.1, first.2], "then": [second.0, second.1, second.2]}});
+        ctx.state(hash_str(&case.to_string()));
+        let p = format!("{dir}/ae-{}-{}.csv", first.0, second.0);
+        let _ = catch(|| save_csv(&a1, &bad).map_err(|e| e.to_string()));
+        if run_save(ctx, "save_csv(after a failed call)", &case, || save_csv(&a2, &p).map_err(|e| e.to_string())) == Some(true) {
+            match read_csv(&p, false) {
+                Ok(t) => compare(ctx, "save_csv(after a failed call)", &t, ["chain", "observation"], second, &v2, true, &case),
+                Err(e) => ctx.violation(Violation::new("C17:save_csv(after a failed call):unreadable", e, case.clone())),
+            }
+        }
+        std::fs::remove_file(&p).ok();
+        let p = format!("{dir}/ae-{}-{}.arrow", first.0, second.0);
+        let _ = catch(|| save_arrow(&a1, &bad).map_err(|e| e.to_string()));
+        if run_save(ctx, "save_arrow(after a failed call)", &case, || save_arrow(&a2, &p).map_err(|e| e.to_string())) == Some(true) {
+            match read_arrow(&p) {
+                Ok(t) => compare(ctx, "save_arrow(after a failed call)", &t, ["chain", "observation"], second, &v2, false, &case),
+                Err(e) => ctx.violation(Violation::new("C17:save_arrow(after a failed call):unreadable", e, case.clone())),
+            }
+        }
+        std::fs::remove_file(&p).ok();
+        let p = format!("{dir}/ae-{}-{}.parquet", first.0, second.0);
+        let _ = catch(|| save_parquet(&a1, &bad).map_err(|e| e.to_string()));
+        if run_save(ctx, "save_parquet(after a failed call)", &case, || save_parquet(&a2, &p).map_err(|e| e.to_string())) == Some(true) {
+            match read_parquet(&p) {
+                Ok(t) => compare(ctx, "save_parquet(after a failed call)", &t, ["chain", "observation"], second, &v2, false, &case),
+                Err(e) => ctx.violation(Violation::new("C17:save_parquet(after a failed call):unreadable", e, case.clone())),
+            }
+        }
+        std::fs::remove_file(&p).ok();
+        if let (Ok(t1), Ok(t2)) = (catch(|| mkt(first, 0.0)), catch(|| mkt(second, 0.5))) {
+            let p = format!("{dir}/ae-{}-{}-t.csv", first.0, second.0);
+            let _ = catch(|| save_csv_tensor(t1.clone(), &bad).map_err(|e| e.to_string()));
+            if run_save(ctx, "save_csv_tensor(after a failed call)", &case, || save_csv_tensor(t2.clone(), &p).map_err(|e| e.to_string())) == Some(true) {
+                match read_csv(&p, true) {
+                    Ok(t) => compare(ctx, "save_csv_tensor(after a failed call)", &t, ["chain", "observation"], second, &v2f, true, &case),
+                    Err(e) => ctx.violation(Violation::new("C17:save_csv_tensor(after a failed call):unreadable", e, case.clone())),
+                }
+            }
+            std::fs::remove_file(&p).ok();
+            let p = format!("{dir}/ae-{}-{}-t.parquet", first.0, second.0);
+            let _ = catch(|| save_parquet_tensor::<NdArray<f32>, _, f32>(&t1, &bad).map_err(|e| e.to_string()));
+            if run_save(ctx, "save_parquet_tensor(after a failed call)", &case, || save_parquet_tensor::<NdArray<f32>, _, f32>(&t2, &p).map_err(|e| e.to_string())) == Some(true) {
+                match read_parquet(&p) {
+                    Ok(t) => compare(ctx, "save_parquet_tensor(after a failed call)", &t, ["observation", "chain"], second, &v2f, false, &case),
+                    Err(e) => ctx.violation(Violation::new("C17:save_parquet_tensor(after a failed call):unreadable", e, case.clone())),
+                }
+            }
+            std::fs::remove_file(&p).ok();
+        }
+    }
+}
+
 fn specials() -> Vec<f64> {
     vec![0.0, -0.0, f32::MIN_POSITIVE as f64 / 4.0, -(f32::MIN_POSITIVE as f64) / 8.0, f32::MAX as f64, -(f32::MAX as f64), f64::INFINITY, f64::NEG_INFINITY, f64::NAN, 1.0 / 3.0, f64::MAX, f64::MIN_POSITIVE / 2.0, 1e-320]
 }
@@ -509,6 +575,7 @@ pub fn run(ctx: &Ctx) {
     jobs.par_iter().for_each(|(s, pos, v)| check_shape(ctx, *s, Some((*pos, *v))));
     error_paths(ctx);
     overwrite_histories(ctx);
+    after_error_histories(ctx);
     std::fs::remove_dir_all(scratch()).ok();
     ctx.assume("read-only-file error path is not exercised (the harness runs as root, for whom the file is writable); a save that returns Err is counted, not a violation");
     if ctx.outcome_count("save_parquet_tensor<f32>:roundtrip-ok") == 0 || ctx.outcome_count("save_csv<f64>:roundtrip-ok") == 0 {
@@ -519,6 +586,11 @@ pub fn run(ctx: &Ctx) {
 pub fn check_case(ctx: &Ctx, case: &Value) {
     if case.get("error_path").is_some() {
         error_paths(ctx);
+        return;
+    }
+    if case.get("after_error").is_some() {
+        after_error_histories(ctx);
+        std::fs::remove_dir_all(scratch()).ok();
         return;
     }
     if case.get("overwrite").is_some() {
